@@ -40,12 +40,20 @@ def run(tier, seed, replay=None):
     N = core.NCPU
     res = core.tlc_mc("C03-mc", "MC_TokInput.tla", "MC_TokInput.cfg" if quick else "MC_TokInput_thorough.cfg", timeout=5000, xmx="16g")
     r.add_mc("MC_TokInput", res)
+    # the attribute-value entry states in depth (raw peek/discard next to preprocessed line breaks)
+    res = core.tlc_mc("C03-mc-bav", "MC_TokInput.tla", "MC_TokInput_bav.cfg", timeout=3000, xmx="12g")
+    r.add_mc("MC_TokInput_bav", res)
     r.gen_validate("enum-k2-allchunk", ["tok", "--mode", "enum", "--k", 2, "--pieces", 20, "--chunk", "all"] + F, SPEC, CFG, N,
                    classify, count_refs, case_key="group", timeout=3000)
     r.gen_validate("bom-default-opts", ["tok", "--mode", "enum", "--pset", "bom", "--k", 3, "--pieces", 8, "--chunk", "all", "--opts", "bom"] + F,
                    SPEC, CFG, N, classify, count_refs, case_key="group", timeout=3000)
     r.gen_validate("prefixed-k2", ["tok", "--mode", "prefixed", "--k", 2, "--pieces", 16, "--chunk", "some"] + F, SPEC, CFG, N,
                    classify, count_refs, case_key="group", timeout=3000)
+    # after an attribute name / '=' / inside values: every line-break kind followed by the characters that raise errors
+    # in an unquoted value, under cuts at every position (the read path there depends on reconsume / ignore_lf)
+    r.gen_validate("attr-linebreaks-k3", ["tok", "--mode", "prefixed", "--pset", "attr", "--prefix-contains", "<a b", "--k", 3,
+                                          "--pieces", 8 if quick else 12, "--chunk", "some"] + F, SPEC, CFG, N, classify, count_refs,
+                   case_key="group", timeout=3000)
     r.gen_validate("random", ["tok", "--mode", "random", "--n", 250 if quick else 4000, "--maxlen", 40, "--chunk", "some"] + F, SPEC, CFG, N,
                    classify, count_refs, case_key="group", timeout=3000)
     if not quick:
